@@ -213,6 +213,8 @@ func cmdCheck(args []string) {
 
 	known := loadKnown(vd)
 	drivers := loadDrivers(vd)
+	// replay files of earlier runs of this property are out of date
+	os.RemoveAll(filepath.Join(vd, "replays", *prop))
 	violations := 0
 	var knownMatched []string
 	var failed []*Obligation
